@@ -145,3 +145,14 @@ package driver
 //@     invariant 0 <= $i && $i <= len(vals) && 0 <= $i1 && $i1 < len(rfx) && rx == rfx[$i1] && has(s.Label, wantKey) && same_elems(vals, s.Label[wantKey])
 //@     invariant forall i int, j int :: 0 <= i && i < $i1 && 0 <= j && j < len(vals) ==> !match(rfx[i], vals[j])
 //@     invariant forall j int :: 0 <= j && j < $i ==> !match(rx, vals[j])
+
+// ---- C06/C04: generateRawReport — the filters are applied exactly once on every successful path (before the report is
+// configured when percentages are relative, after it otherwise), pseudo frames from labels are generated before any
+// filtering, and aggregation to the requested granularity always runs, on the profile the report was built from ----
+//@ func generateRawReport nosafety
+//@   mustcall applyFocus filtered: $arg0 == p when $res2 == nil
+//@   mustcall aggregate aggregated: $arg0 == p when $res2 == nil
+//@   mustcall generateTagRootsLeaves tagroots: $arg0 == p when $res2 == nil
+//@   mustcall New report: $arg0 == p when $res2 == nil
+//@   callsite applyFocus same_profile: $arg0 == p && $arg1 == numLabelUnits
+//@   callsite aggregate same_profile: $arg0 == p
